@@ -41,6 +41,9 @@ class EventHeap:
         self._current_time = Instant.Epoch
         self._heap = list(events) if events else []
         heapq.heapify(self._heap)
+        # Highest sort index pushed so far; the per-heap counter is kept above it
+        # so that events created during a run order after every earlier event.
+        self._max_sort_index = max((e._sort_index for e in self._heap), default=-1)
         self._trace = trace_recorder or NullTraceRecorder()
         self._tracing_enabled = not isinstance(self._trace, NullTraceRecorder)
         # Per-heap event counter for parallel partition isolation.
@@ -109,6 +112,8 @@ class EventHeap:
 
     def _push_single(self, event: Event) -> None:
         heapq.heappush(self._heap, event)
+        if event._sort_index > self._max_sort_index:
+            self._max_sort_index = event._sort_index
         if not event.daemon:
             self._primary_event_count += 1
         if logger.isEnabledFor(logging.DEBUG):
